@@ -1,30 +1,57 @@
-/- Soundness of the checked reachability set of the guard language (helper). -/
+/- Soundness of a checked invariant set of the guard language (helper). -/
 import AeicModel.GuardLang
-
 namespace Aeic.GuardLang
 
-theorem run_mem_of_closed (prog : List Instr) (l : List S) (hcl : closed prog l = true) :
-    ∀ (sched : List Bool) (s : S), s ∈ l → run prog s sched ∈ l := by
+/-- the states stored in a tree -/
+def Tree.Holds (s : S) : Tree → Prop
+  | .leaf => False
+  | .node l _ b r => l.Holds s ∨ s ∈ b ∨ r.Holds s
+
+theorem Tree.holds_of_mem (t : Tree) (k : Nat) (s : S) (h : t.mem k s = true) : t.Holds s := by
+  induction t with
+  | leaf => simp [Tree.mem] at h
+  | node l k' b r ihl ihr =>
+    simp only [Tree.mem] at h
+    split at h
+    · exact Or.inl (ihl h)
+    · split at h
+      · exact Or.inr (Or.inr (ihr h))
+      · exact Or.inr (Or.inl (List.contains_iff_mem.mp h))
+
+theorem Tree.all_holds (t : Tree) (p : S → Bool) (h : t.all p = true) (s : S) (hs : t.Holds s) : p s = true := by
+  induction t with
+  | leaf => cases hs
+  | node l k b r ihl ihr =>
+    simp only [Tree.all, Bool.and_eq_true] at h
+    rcases hs with hs | hs | hs
+    · exact ihl h.1.1 hs
+    · exact List.all_eq_true.mp h.1.2 s hs
+    · exact ihr h.2 hs
+
+theorem run_holds_of_closed (prog : List Instr) (t : Tree) (hcl : closedT prog t = true) :
+    ∀ (sched : List Act) (s : S), t.Holds s → t.Holds (run prog s sched) := by
   intro sched
   induction sched with
   | nil => intro s hs; exact hs
-  | cons t ts ih =>
+  | cons a as ih =>
     intro s hs
     simp only [run]
     apply ih
-    have h := List.all_eq_true.mp hcl s hs
-    simp only [Bool.and_eq_true, List.contains_iff_mem] at h
-    cases t with
-    | false => exact h.1
-    | true => exact h.2
+    have h := Tree.all_holds t _ hcl s hs
+    have ha : a ∈ acts := by
+      rcases a with ⟨x, y⟩
+      cases x <;> cases y <;> simp [acts]
+    have := List.all_eq_true.mp h a ha
+    exact Tree.holds_of_mem t _ _ this
 
-/-- if a list of states contains the initial state, is closed under every thread's step and contains no state in which
-    both constructors succeeded, then no schedule whatsoever leads to such a state -/
-theorem safe_of_closed (prog : List Instr) (l : List S) (hinit : l.contains S.init = true) (hcl : closed prog l = true)
-    (hsafe : l.all (fun s => !bothOk prog s) = true) (sched : List Bool) :
-    bothOk prog (run prog S.init sched) = false := by
-  have hmem := run_mem_of_closed prog l hcl sched S.init (List.contains_iff_mem.mp hinit)
-  have := List.all_eq_true.mp hsafe _ hmem
+/-- if a search tree of states contains the initial state, is closed under every thread's step (with either choice bit)
+    and contains no state in which both threads have constructed a store, then no schedule whatsoever — of any length,
+    with any number of repeated and failed constructor calls — leads to such a state -/
+theorem safe_of_closed (prog : List Instr) (t : Tree) (hinit : t.mem (key S.init) S.init = true)
+    (hcl : closedT prog t = true) (hsafe : t.all (fun s => !bothOk s) = true) (sched : List Act) :
+    bothOk (run prog S.init sched) = false := by
+  have hmem := run_holds_of_closed prog t hcl sched S.init (Tree.holds_of_mem t _ _ hinit)
+  have := Tree.all_holds t _ hsafe _ hmem
   simpa using this
 
 end Aeic.GuardLang
